@@ -17,7 +17,8 @@ func init() {
 			"(C05.1) every mutation of an http.Header (Set/Add/Del, index assignment, delete, maps.Copy) either uses a constant key from the protocol control-key table, or is a relocation: key derived from the key of a range over a header map (optionally adding/removing a constant prefix) with the ranged value list moved whole or element by element; nothing else may touch a header map, so application metadata is never renamed, dropped or rewritten; " +
 			"(C05.2) relocation functions that extract from a live header map into a fresh one delete each moved key from the source in the same iteration; " +
 			"(C05.3) every RPC client protocol's response encoders consume responseEnd.trailers (range / maps.Copy / store into the end-stream metadata); " +
-			"(C05.4) a function that reads a gRPC status key from a map deletes that key from the same map on every path. " +
+			"(C05.4) a function that reads a gRPC status key from a map deletes that key from the same map on every path, and the function that extracts the status removes the whole status key set on every return; " +
+			"(C05.9) keys taken from a header map's own key set are used with direct indexing; (C05.10) a function that cuts a header value at commas trims every item it collects (announced trailer names select which headers are trailers). " +
 			"Not decided: canonicalisation/case of arbitrary keys, '-bin' value encoding, ordering of values, REST clients (no trailer position defined).",
 		Assumptions: []string{"net/http delivers Trailer:-prefixed header entries as HTTP trailers (http.TrailerPrefix contract)"},
 		Run:         runC05,
@@ -54,6 +55,7 @@ func constKeys(v ssa.Value) ([]string, bool) {
 
 func runC05(c *Ctx) {
 	defer runC05RawKeysIndexedDirectly(c)
+	defer runC05ListItemsTrimmed(c)
 	// clause shared with C04: the gRPC-Web trailer block is read as HTTP/1 header lines
 	defer c.ImportRules("C04", "C04.6")
 	p := c.P
@@ -333,6 +335,28 @@ func runC05(c *Ctx) {
 			c.Check(okDel, "C05.4", FuncName(fn), "read-then-delete:"+key, call.Pos(),
 				"the status key is deleted from the map it was read from on every path",
 				"status key "+key+" is read but can remain in the map that is then used as application trailers: "+witnessString(p, path))
+			// Round 8 (seed C05n): the map a status was extracted from goes on as the
+			// application's trailers, whatever the status said.  So the function that reads
+			// Grpc-Status removes the WHOLE key set on every path - also on the early
+			// 'status 0' return, on which the message and the details are never looked at
+			// (a peer may send `grpc-message: OK` with a success).
+			if key == grpcStatusKeys[0] {
+				for _, other := range grpcStatusKeys[1:] {
+					other := other
+					delOther := func(in ssa.Instruction) bool {
+						ci, ok := in.(ssa.CallInstruction)
+						if !ok || !IsCallTo(ci, "(net/http.Header).Del") {
+							return false
+						}
+						k2, ok := ConstString(ci.Common().Args[1])
+						return ok && textproto.CanonicalMIMEHeaderKey(k2) == other && PathOf(ci.Common().Args[0]) == mp
+					}
+					okAll, path := MustPassToExit(fn, nil, delOther, IsReturn, nil)
+					c.Check(okAll, "C05.4", FuncName(fn), "status-extraction-removes:"+other, call.Pos(),
+						"every return of the function that extracts the status has removed "+other+" from the same map",
+						"the function reads Grpc-Status from a map but a path returns with "+other+" still in it; the map goes on as application trailers: "+witnessString(p, path))
+				}
+			}
 		}
 	}
 }
@@ -762,4 +786,137 @@ func runC05RawKeysIndexedDirectly(c *Ctx) {
 		})
 	}
 	_ = n
+}
+
+// appendedElems: the element values of `append(s, e1, e2...)` (the variadic operand is a slice
+// over a fresh array whose cells were stored individually).  ok=false for `append(s, other...)`.
+func appendedElems(call *ssa.Call) ([]ssa.Value, bool) {
+	b, isB := call.Call.Value.(*ssa.Builtin)
+	if !isB || b.Name() != "append" || len(call.Call.Args) != 2 {
+		return nil, false
+	}
+	sl, ok := call.Call.Args[1].(*ssa.Slice)
+	if !ok {
+		return nil, false
+	}
+	al, ok := sl.X.(*ssa.Alloc)
+	if !ok {
+		return nil, false
+	}
+	var out []ssa.Value
+	for _, ref := range *al.Referrers() {
+		ia, ok := ref.(*ssa.IndexAddr)
+		if !ok {
+			continue
+		}
+		for _, r2 := range *ia.Referrers() {
+			if st, ok := r2.(*ssa.Store); ok && st.Addr == ia {
+				out = append(out, st.Val)
+			}
+		}
+	}
+	return out, len(out) > 0
+}
+
+// runC05ListItemsTrimmed: C05.10 (seed C05m).  A header whose value is a comma-separated list
+// (`Trailer: Grpc-Status, X-A, X-B`; Accept-Encoding; Connect-Accept-Encoding) carries optional
+// blanks around EVERY item (RFC 9110 5.6.1).  The announced trailer names select which response
+// headers are application trailers, so a name that keeps its leading blank matches no header and
+// the trailer - with all its values - is dropped without a trace.  A function that cuts strings
+// at ',' and collects the pieces therefore trims each PIECE: whatever it appends to its result is
+// the value of a trimming call (strings.TrimSpace / strings.Trim* / textproto.TrimString);
+// trimming the whole line first and appending raw sub-slices is not the same thing.
+func runC05ListItemsTrimmed(c *Ctx) {
+	p := c.P
+	c.Rule("C05.10", "a function that cuts a header value at commas trims every item it collects", 1)
+	isCommaCut := func(call ssa.CallInstruction) bool {
+		if !IsCallTo(call, "strings.IndexByte", "strings.Index", "strings.Cut", "strings.Split", "strings.SplitN", "strings.SplitSeq", "strings.IndexRune") {
+			return false
+		}
+		args := call.Common().Args
+		if len(args) < 2 {
+			return false
+		}
+		if s, ok := ConstString(args[1]); ok {
+			return s == ","
+		}
+		if n, ok := ConstInt(args[1]); ok {
+			return n == ','
+		}
+		return false
+	}
+	isTrim := func(v ssa.Value) bool {
+		call, ok := strip(v).(*ssa.Call)
+		return ok && IsCallTo(call, "strings.TrimSpace", "strings.Trim", "strings.TrimFunc", "net/textproto.TrimString")
+	}
+	n := 0
+	for _, fn := range p.Funcs {
+		if !p.inScope(fn) {
+			continue
+		}
+		cuts := false
+		for _, call := range Calls(fn) {
+			if isCommaCut(call) {
+				cuts = true
+			}
+		}
+		if !cuts {
+			continue
+		}
+		ForEachInstr(fn, func(in ssa.Instruction) {
+			call, ok := in.(*ssa.Call)
+			if !ok {
+				return
+			}
+			elems, ok := appendedElems(call)
+			if !ok {
+				return
+			}
+			sl, isSl := call.Type().Underlying().(*types.Slice)
+			if !isSl {
+				return
+			}
+			if bt, isB := sl.Elem().Underlying().(*types.Basic); !isB || bt.Kind() != types.String {
+				return
+			}
+			for _, e := range elems {
+				n++
+				// a phi of trimmed values is as good as a trimmed value
+				good := true
+				for _, o := range phiLeaves(e) {
+					if !isTrim(o) {
+						good = false
+					}
+				}
+				c.Check(good, "C05.10", FuncName(fn), "list-item-trimmed", call.Pos(),
+					"the collected item is the result of a trimming call",
+					"this function cuts a string at ',' and collects a piece that was not trimmed by itself: in `A, B` the second name keeps its leading blank and matches no header key")
+			}
+		})
+	}
+	if n == 0 {
+		c.Bad("C05.10", "package", "list-item-trimmed", token.NoPos, "no function cuts a string at ',' and collects the pieces any more: shape changed")
+	}
+}
+
+// phiLeaves: v, or the non-phi values a phi chooses between.
+func phiLeaves(v ssa.Value) []ssa.Value {
+	seen := map[ssa.Value]bool{}
+	var out []ssa.Value
+	var walk func(ssa.Value)
+	walk = func(x ssa.Value) {
+		if seen[x] {
+			return
+		}
+		seen[x] = true
+		if ph, ok := x.(*ssa.Phi); ok {
+			for _, e := range ph.Edges {
+				walk(e)
+			}
+			return
+		}
+		out = append(out, x)
+	}
+	walk(v)
+	return out
 }
